@@ -238,38 +238,60 @@ def pair_rewrites(obj: Any, limit: int = 40) -> Iterator[Tuple[str, str]]:
 # + / * chain rearrangements of sweep expressions
 
 def expr_rearrangements(expr: str, limit: int = 24) -> List[str]:
-    """All operand permutations x bracketings of every + / * chain (semantically equal in exact arithmetic)."""
+    """Rearrangements of + / * chains (operand permutations x bracketings), one chain at a time, at any depth.
+
+    All results are semantically equal to `expr` in exact arithmetic."""
     tree = ast.parse(expr, mode="eval").body
-    out = set()
 
-    def chains(n: ast.AST) -> List[ast.AST]:
-        """Return variants of n."""
-        if isinstance(n, ast.BinOp) and isinstance(n.op, (ast.Add, ast.Mult)):
-            terms: List[ast.AST] = []
-
-            def collect(t):
-                if isinstance(t, ast.BinOp) and type(t.op) is type(n.op):
-                    collect(t.left)
-                    collect(t.right)
-                else:
-                    terms.append(t)
-
-            collect(n)
-            if len(terms) > 4:
-                return [n]
-            res = []
-            for perm in itertools.permutations(terms):
-                for tr in _bracketings(list(perm), type(n.op)):
-                    res.append(tr)
-            return res
+    def flatten(n: ast.AST, op_type) -> List[ast.AST]:
+        if isinstance(n, ast.BinOp) and type(n.op) is op_type:
+            return flatten(n.left, op_type) + flatten(n.right, op_type)
         return [n]
 
-    for v in chains(tree):
-        out.add(ast.unparse(v))
-        if len(out) >= limit:
-            break
+    def build(terms: List[ast.AST], op_type) -> ast.AST:
+        cur = terms[0]
+        for t in terms[1:]:
+            cur = ast.BinOp(left=cur, op=op_type(), right=t)
+        return cur
+
+    def variants(n: ast.AST) -> List[ast.AST]:
+        res: List[ast.AST] = []
+        if isinstance(n, ast.BinOp) and isinstance(n.op, (ast.Add, ast.Mult)):
+            op_type = type(n.op)
+            terms = flatten(n, op_type)
+            if len(terms) <= 4:
+                for perm in itertools.permutations(terms):
+                    res.extend(_bracketings(list(perm), op_type))
+            for i, t in enumerate(terms):
+                for v in variants(t):
+                    res.append(build(terms[:i] + [v] + terms[i + 1:], op_type))
+            return res
+        for field, value in ast.iter_fields(n):
+            if isinstance(value, ast.expr):
+                for v in variants(value):
+                    c = copy.copy(n)
+                    setattr(c, field, v)
+                    res.append(c)
+            elif isinstance(value, list):
+                for i, item in enumerate(value):
+                    if isinstance(item, ast.expr):
+                        for v in variants(item):
+                            c = copy.copy(n)
+                            setattr(c, field, value[:i] + [v] + value[i + 1:])
+                            res.append(c)
+        return res
+
+    out = set()
+    for v in variants(tree):
+        try:
+            out.add(ast.unparse(ast.fix_missing_locations(ast.Expression(body=copy.deepcopy(v)))))
+        except Exception:
+            continue
     out.discard(expr)
-    return sorted(out)
+    out.discard(ast.unparse(tree))
+    res = sorted(out, key=lambda t: (len(t), t))
+    step = max(1, len(res) // limit)
+    return res[::step][:limit]
 
 
 def _bracketings(ops: List[ast.AST], op_type) -> Iterator[ast.AST]:
